@@ -409,6 +409,21 @@ func harnessAPI(e *Exec, g *G, fn *ssa.Function, args []Value) (Value, bool) {
 		n := args[0].(*Term)
 		m := e.newByteMem(false)
 		return &SymBytes{Mem: m, Off: tt.BV(64, 0), Len: n, Cap: n}, true
+	case "clientOnClose":
+		// read the unexported userCloseFunc field of a *ttrpc.Client built by the harness model
+		p, _ := args[0].(Ptr)
+		if p == nil {
+			return (*ssa.Function)(nil), true
+		}
+		st := (*p).(Struct)
+		ct := fn.Signature.Params().At(0).Type().(*types.Pointer).Elem().Underlying().(*types.Struct)
+		for i := 0; i < ct.NumFields(); i++ {
+			if ct.Field(i).Name() == "userCloseFunc" {
+				return st[i], true
+			}
+		}
+		e.unsupported("ttrpc.Client has no userCloseFunc field")
+		return nil, true
 	case "containsSlash":
 		return tt.Contains(args[0].(*Term), tt.Str("/")), true
 	case "containsEq":
